@@ -70,7 +70,10 @@ impl Env {
     }
     /// To be called after every operation: files created by it get the current virtual instant.
     pub fn observe(&self) {
+        // (the harness's own scan is not a system-call point of the subject)
+        let was = std::mem::replace(&mut self.ctx.fs.lock().unwrap_or_else(|e| e.into_inner()).sys_armed, false);
         self.clock.observe_dir(&self.dir);
+        self.ctx.fs.lock().unwrap_or_else(|e| e.into_inner()).sys_armed = was;
     }
     pub fn errlines(&self) -> Vec<String> {
         crate::lg::read_errchan(&self.err)
